@@ -190,6 +190,21 @@ def measure(ctx, r, d, n, kw, v, case, skip_parse):
     return True
 
 
+def shortened(v, depth=0):
+    """the value with one list (at any depth <= 3) shortened by one element: if such a value builds at all, it must still fill the declared size"""
+    out = []
+    if depth > 3:
+        return out
+    if isinstance(v, list) and v:
+        out.append(v[:-1])
+        for i, x in enumerate(v[:2]):
+            out += [v[:i] + [y] + v[i + 1:] for y in shortened(x, depth + 1)]
+    elif isinstance(v, dict):
+        for k2, x in list(v.items())[:4]:
+            out += [dict(v, **{k2: y}) for y in shortened(x, depth + 1)]
+    return out[:6]
+
+
 def culprit(r, kw):
     """the innermost sub-recipe whose own sizeof disagrees with its own measured advance is hard to isolate generically; key on the set of sized wrapper kinds"""
     ks = kinds_in(r) & {"Aligned", "Padded", "Prefixed", "FixedSized", "Array", "Bitwise", "Bytewise", "BitStruct", "AlignedStruct", "PaddedString", "IfThenElse", "Switch", "If",
@@ -251,6 +266,14 @@ def templates():
             t.append((["Struct", [["h", B], ["z", ["Lazy", lz]], ["t", B]]], {"n": n}))
             t.append((["Lazy", lz], {"n": n}))
             t.append((["LazyStruct", [["h", B], ["z", lz], ["t", B]]], {"n": n}))
+            t.append((["LazyArray", n + 1, lz], {"n": n}))
+            t.append((["Struct", [["h", B], ["zs", ["LazyArray", 3, lz]], ["t", B]]], {"n": n}))
+    # a Pointer told to work on another stream (the enclosing one) from inside a delimited region: both streams keep their positions
+    for n in (1, 2, 3):
+        for region in ("FixedSized", "Padded", "Prefixed"):
+            inner = ["Struct", [["p", ["Pointer", 0, B, ["this", "_", "_io"]]], ["x", ["Bytes", ["this", "_", "_params", "n"]]], ["q", ["Pointer", 1, B, ["this", "_root", "_io"]]]]]
+            body = [region, 6, inner] if region != "Prefixed" else ["FixedSized", 7, ["Prefixed", B, inner, False]]
+            t.append((["Struct", [["a", B], ["f", body], ["t", ["name", "Int16ub"]]]], {"n": n}))
     return t
 
 
@@ -344,6 +367,8 @@ def run(ctx):
             except (M.ModelGap, M.MissingKey, M.Unsized, M.Reject):
                 break
             okn += measure(ctx, r, d, n, kw, v, case, bool(kinds_in(r) & {"ProcessXor", "ProcessRotateLeft"}))
+            for v2 in shortened(v):
+                measure(ctx, r, d, n, kw, v2, dict(case, hostile="list shortened by one"), True)
         if okn >= 2 and kw:
             ctx.nontrivial("gr", shape(r))
         ctx.count("grammar_recipes_sized")
